@@ -200,6 +200,11 @@ func c14Supported(c *Check, cases []xcase) {
 				if !inInput && !minify {
 					continue // without the minifier esbuild only removes syntax; with it, rewrites may introduce the feature
 				}
+				// the single override on its own: esbuild must itself extend it to the features that cannot exist without it
+				// (async-await:false implies async generators, for-await and top-level await; the private-name features are separate features that share one lexical detector, so they are only checked as a group below)
+				if out1, ok1, _ := transformJS(cs.code, api.TransformOptions{Target: api.ESNext, Supported: map[string]bool{f: false}, MinifySyntax: minify}); f == "async-await" && ok1 && (d.MatchString(out1) || c14Detectors["for-await"].MatchString(out1) || c14Detectors["async-generator"].MatchString(out1)) {
+					c.Violation("supported-false-alone:"+f+":"+cs.code, map[string]interface{}{"kind": "supported:{feature:false} (no other override) but the output still uses the feature", "feature": f, "minify": minify, "input": cs.code, "output": out1})
+				}
 				out, ok, _ := transformJS(cs.code, api.TransformOptions{Target: api.ESNext, Supported: deps, MinifySyntax: minify})
 				if ok && d.MatchString(out) {
 					c.Violation("supported-false:"+f+":"+cs.code, map[string]interface{}{"kind": "supported:{feature:false} but the output still uses the feature", "feature": f, "minify": minify, "input": cs.code, "output": out})
